@@ -7,6 +7,7 @@ package net
 import (
 	"context"
 	"errors"
+	"io"
 	realnet "net"
 	"strconv"
 	"time"
@@ -73,7 +74,8 @@ func (d *Dialer) DialContext(ctx context.Context, network, address string) (Conn
 	if err != nil {
 		return nil, err
 	}
-	return c, nil
+	// as in production, a "tcp" connection is a *TCPConn
+	return &TCPConn{c}, nil
 }
 
 func (d *Dialer) Dial(network, address string) (Conn, error) {
@@ -99,7 +101,29 @@ func Listen(network, address string) (Listener, error) {
 	if err != nil {
 		return nil, err
 	}
-	return l, nil
+	return &TCPListener{l}, nil
+}
+
+// TCPListener is the simulated counterpart of *net.TCPListener: the
+// connections it accepts are *TCPConn, as in production.
+type TCPListener struct {
+	*simnet.Listener
+}
+
+func (l *TCPListener) Accept() (Conn, error) {
+	c, err := l.Listener.Accept()
+	if e, ok := c.(*pipe.End); ok && e != nil {
+		return &TCPConn{e}, err
+	}
+	return c, err
+}
+
+func (l *TCPListener) AcceptTCP() (*TCPConn, error) {
+	c, err := l.Listener.Accept()
+	if e, ok := c.(*pipe.End); ok && e != nil {
+		return &TCPConn{e}, err
+	}
+	return nil, err
 }
 
 // ResolveTCPAddr parses host:port without any lookup.
@@ -132,6 +156,40 @@ func (c *TCPConn) SetKeepAlivePeriod(time.Duration) error { return nil }
 func (c *TCPConn) SetLinger(int) error                    { return nil }
 func (c *TCPConn) CloseWrite() error                      { return c.End.Close() }
 func (c *TCPConn) CloseRead() error                       { return nil }
+
+// ReadFrom and WriteTo exist on the real *net.TCPConn (WriteTo since Go 1.22)
+// and are found by io.Copy before it falls back to Read/Write. Like the real
+// ones (net.genericReadFrom / net.genericWriteTo, what remains when
+// sendfile/splice do not apply) they move the bytes directly between the
+// socket and the other party: nothing that wraps this connection - e.g. a
+// bufio.Reader holding read-ahead - is consulted.
+func (c *TCPConn) ReadFrom(r io.Reader) (int64, error) {
+	return io.Copy(tcpConnWithoutReadFrom{TCPConn: c}, r)
+}
+
+func (c *TCPConn) WriteTo(w io.Writer) (int64, error) {
+	return io.Copy(w, tcpConnWithoutWriteTo{TCPConn: c})
+}
+
+type noReadFrom struct{}
+
+func (noReadFrom) ReadFrom(io.Reader) (int64, error) { panic("can't happen") }
+
+type noWriteTo struct{}
+
+func (noWriteTo) WriteTo(io.Writer) (int64, error) { panic("can't happen") }
+
+// the same trick as in the standard library: the embedded no* type makes the
+// selector ambiguous, so the wrapper has neither ReadFrom nor WriteTo
+type tcpConnWithoutReadFrom struct {
+	noReadFrom
+	*TCPConn
+}
+
+type tcpConnWithoutWriteTo struct {
+	noWriteTo
+	*TCPConn
+}
 
 func tcpAddrString(a *TCPAddr) string {
 	host := a.Zone
